@@ -104,3 +104,37 @@ func PSLHosts() (out []string) {
 
 	return out
 }
+
+// PadToStraddle inserts comment lines so that a few randomly chosen rule lines
+// straddle a 4 KiB block boundary (LF line ends): the list becomes longer than
+// the read block of the file-backed list and the straddling lines are read in
+// two pieces.
+func PadToStraddle(rng interface{ Intn(int) int }, lines []string, times int) []string {
+	out := append([]string(nil), lines...)
+	for t := 0; t < times; t++ {
+		var cand []int
+		off := 0
+		offs := make([]int, len(out))
+		for i, l := range out {
+			offs[i] = off
+			off += len(l) + 1
+			if len(l) > 3 && l[0] != '!' && l[0] != '#' {
+				cand = append(cand, i)
+			}
+		}
+		if len(cand) == 0 {
+			return out
+		}
+		i := cand[rng.Intn(len(cand))]
+		k := 1 + rng.Intn(len(out[i])-1)
+		b := 4096
+		for b-k-offs[i] < 3 {
+			b += 4096
+		}
+		p := b - k - offs[i]
+		pad := "! " + strings.Repeat("-", p-3)
+		out = append(out[:i], append([]string{pad}, out[i:]...)...)
+	}
+
+	return out
+}
